@@ -712,3 +712,15 @@ S("seed-C19-b", ["C19"], "seeded/C19-b/patch.diff", [("C19", "C19-R4", "serializ
 S("seed-C05-c", ["C05"], "seeded/C05-c/patch.diff", [("C05", "C05-R3", "")], note="")
 S("seed-C09-b", ["C09"], "seeded/C09-b/patch.diff", [("C09", "C09-R4", "")], note="")
 S("seed-C20-b", ["C20"], "seeded/C20-b/patch.diff", [("C20", "C20-R2", "")], note="")
+M("c02-call-wrapper-uncounted", ["C02"], VM,
+  "            self._enter_host_level()\n            try:\n                # JSBoundMethod expects this as first arg",
+  "            try:\n                self.host_depth[0] += 1\n                # JSBoundMethod expects this as first arg",
+  [("C02", "C02-R3d", "call_fn")], note="fix 8c4e172 reverted in spirit: the level is counted but never checked against the budget")
+M("c02-bind-wraps-bound-host-function", ["C02"], VM,
+  "            if isinstance(fn, _BoundHostFunction):\n",
+  "            if False and isinstance(fn, _BoundHostFunction):\n",
+  [("C02", "C02-R3d", "_BoundHostFunction.__call__")], note="bind no longer flattens: chains of bound host functions nest")
+M("c08-bind-does-not-flatten", ["C08"], VM,
+  "                target = func._original_func\n                bound_this = func._bound_this\n                bound_args = list(func._bound_args) + bound_args\n",
+  "                pass\n",
+  [("C08", "C08-R9", "bind-of-bound")], note="fix 46bea00 disabled")
